@@ -34,6 +34,12 @@ def run(name, tier):
         if p.returncode == 1 and viol:
             return prop, "caught", viol[0][:300]
         if p.returncode == 0:
+            for other in meta.get("also_checks", []):
+                q = subprocess.run([os.path.join(VERIF, "check"), other, "--tier", tier], cwd=VERIF, env=env,
+                                   capture_output=True, text=True, timeout=3600)
+                v2 = [l for l in q.stdout.splitlines() if l.startswith("VIOLATION")]
+                if q.returncode == 1 and v2:
+                    return prop, "caught-by-" + other, v2[0][:300]
             return prop, "MISSED", ""
         return prop, f"CHECK-ERROR({p.returncode})", (p.stderr or p.stdout)[-300:].replace("\n", " ")
     finally:
